@@ -119,9 +119,16 @@ def api_level(rep, tier_, rng):
 def run(rep, tier_, rng):
     run_engine_a(rep, "C14", tier_, rng, FNS, TAGS, n_quick=500, n_thorough=8000, extra=api_level,
                  make=allcases.make, spec=allcases.spec)
-    rep.assumptions.append("exp/log/sin/cos/tan/atan2/x**y and the gamma family are not decided by this check yet (elementary part planned through Interval certificates)")
+    from props import c14e
+    rep.coverage.update(c14e.run_elementary(rep, tier_, rng, budget=(60 if tier_ == "quick" else 600)))
+    rep.assumptions.append("elementary functions on intervals (exp/log/sin/cos/tan/atan2/x**y/sqrt...) are decided per sampled interval by universally quantified Coq Interval certificates (exploration level for that part); the gamma family is not decided here")
 
 
 def replay(rep, path):
+    import json
+    r = json.load(open(path)); r = r.get("replay", r)
+    if isinstance(r, dict) and r.get("clause") == "containment" and str(r.get("fn", "")).startswith(("iv.", "ivmpc.")):
+        from props import c14e
+        rep.coverage.update(c14e.replay_elementary(rep, r)); return
     from props import c02
     c02.replay(rep, path)
